@@ -15,8 +15,9 @@
    multipliers come from the implementation's own state (verif hook) or from an exact solver in the
    harness; either way they are only a certificate. *)
 From Coq Require Import ZArith QArith List Bool Lia.
-From VL Require Import Prelude.PyDict Model.Divisor Model.HighestAverages Model.Biprop
-     Proofs.Dict_proofs Proofs.Divisor_proofs Proofs.Biprop_proofs Proofs.Biprop_steps Proofs.BipropRow_proofs.
+From VL Require Import Prelude.PyDict Model.Divisor Model.HighestAverages Model.Biprop Model.BipropLoop
+     Proofs.Dict_proofs Proofs.Divisor_proofs Proofs.Biprop_proofs Proofs.Biprop_steps Proofs.BipropRow_proofs
+     Proofs.BipropLoop_proofs Proofs.BipropInit_proofs Proofs.BipropProgress_proofs.
 Import ListNotations.
 Open Scope Z_scope.
 
@@ -151,6 +152,145 @@ Proof.
   intros Hv. apply H. apply (sp_zero _ _ _ _ _ _ _ _ _ S i j Hv).
 Qed.
 
+(* ---- PARTIAL CORRECTNESS of the whole of BiproportionalEvaluator.evaluate (Model/BipropLoop.v) ----
+   The model mirrors _initial_solution (HighestAverages = the C01 model; a tie inside a column spread over the first
+   tied districts), _initial_party_coefs, _districts_unsat, _calc_quots, _labeled, the path walk of _augment_result,
+   _adj_coef and the multiplier update, iterated on explicit fuel.  [q] is signpost_q, [d] the divisor function; the
+   evaluator knows q for d_hondt (0) and sainte_lague (1/2), i.e. d s = k (s + 1 - q) with k = 1 / k = 2.
+   Hypotheses: the vote matrix is a dict of dicts (keys without repetition) of non-negative integers, one of them
+   positive; n >= 0; [dorder] (the iteration order of the frozenset of district names, which is where Python's set
+   order reaches the algorithm) lists every district.  NOT claimed: termination - running out of fuel (and every
+   refusal: BP_refused, BP_zero_division, BP_key_error, BP_value_error, a tied marginal) is a different constructor. *)
+
+(* 1. the loop invariant (party totals, no seat without votes, positive multipliers, every cell between its
+      signposts s - q <= votes x rho x gamma <= s + 1 - q) is kept by ONE iteration, whatever it does *)
+Theorem C07_step_keeps_invariant : forall q votes pseats tgt dorder s, (0 <= q)%Q -> (q < 1)%Q -> wf_votes votes ->
+  BInv q votes pseats s ->
+  match bstep q votes tgt dorder s with Next s' => BInv q votes pseats s' | _ => True end.
+Proof. intros q votes pseats tgt dorder s Hq0 Hq Hwf. exact (bstep_inv q Hq0 Hq votes Hwf pseats tgt dorder s). Qed.
+
+(* 2. from ANY state satisfying the invariant: if the loop returns a matrix, the certificate checker accepts it with the
+      final multipliers (district multipliers times k: the checker works in the units of the divisor function) *)
+Theorem C07_loop_partial_correct : forall d q k votes pseats tgt dorder fuel s res rho gamma,
+  (0 <= q)%Q -> (q < 1)%Q -> (0 < k)%Q -> (forall z, d z == k * (inject_Z z + 1 - q))%Q ->
+  wf_votes votes -> incl (districts votes) dorder -> BInv q votes pseats s ->
+  bloop q votes tgt dorder fuel s = BP_ok res rho gamma ->
+  cert_ok d (districts votes) (parties votes) votes tgt pseats res (scale_k k rho) gamma = true.
+Proof.
+  intros d q k votes pseats tgt dorder fuel s res rho gamma Hq0 Hq1 Hk Hd Hwf Hdo I H.
+  exact (proj1 (bloop_partial d q k Hq0 Hq1 Hk Hd votes Hwf pseats tgt dorder Hdo fuel s res rho gamma I H)).
+Qed.
+
+(* 3. the state in which evaluate enters the loop satisfies the invariant, and its party totals are the tie-free answer
+      of the HighestAverages model on the overall party votes *)
+Theorem C07_initial_state_invariant : forall d q k votes n s,
+  (0 <= q)%Q -> (q < 1)%Q -> (0 < k)%Q -> (forall z, d z == k * (inject_Z z + 1 - q))%Q ->
+  wf_votes votes -> (forall i j, 0 <= mget votes i j) -> (exists i j, 0 < mget votes i j) -> 0 <= n ->
+  binit d q votes n = inr s ->
+  exists pseats, HighestAverages.evaluate d (party_totals votes) n [] [] = HA_ok pseats None /\ BInv q votes pseats s.
+Proof. intros d q k votes n s Hq0 Hq1 Hk Hd Hwf Hv Hs Hn. exact (binit_inv d q k Hq0 Hq1 Hk Hd votes Hwf Hv Hs n Hn s). Qed.
+
+(* 4. the whole evaluate, district seats given (a dictionary, or whatever a custom apportioner returned) *)
+Theorem C07_evaluate_partial_correct : forall d q k votes n tgt dorder fuel res rho gamma,
+  (0 <= q)%Q -> (q < 1)%Q -> (0 < k)%Q -> (forall z, d z == k * (inject_Z z + 1 - q))%Q ->
+  wf_votes votes -> (forall i j, 0 <= mget votes i j) -> (exists i j, 0 < mget votes i j) -> 0 <= n ->
+  incl (districts votes) dorder ->
+  evaluate_core d q votes tgt dorder n fuel = BP_ok res rho gamma ->
+  exists pseats, ha_marginal d (party_totals votes) n = Some pseats /\
+    cert_ok d (districts votes) (parties votes) votes tgt pseats res (scale_k k rho) gamma = true /\
+    biprop_spec d (districts votes) (parties votes) votes tgt pseats res.
+Proof.
+  intros d q k votes n tgt dorder fuel res rho gamma Hq0 Hq1 Hk Hd Hwf Hv Hs Hn Hdo H.
+  destruct (evaluate_core_partial d q k Hq0 Hq1 Hk Hd votes Hwf Hv Hs n Hn dorder Hdo tgt fuel res rho gamma H) as (pseats & Hp & Hc).
+  exists pseats. split; [exact Hp|]. split; [exact Hc|]. exact (proj2 (C07_cert_sound _ _ _ _ _ _ _ _ _ Hc)).
+Qed.
+
+(* 5. ... and seats given as a total: the districts are apportioned by the same HighestAverages model *)
+Theorem C07_evaluate_total_partial_correct : forall d q k votes n dorder fuel res rho gamma,
+  (0 <= q)%Q -> (q < 1)%Q -> (0 < k)%Q -> (forall z, d z == k * (inject_Z z + 1 - q))%Q ->
+  wf_votes votes -> (forall i j, 0 <= mget votes i j) -> (exists i j, 0 < mget votes i j) -> 0 <= n ->
+  incl (districts votes) dorder ->
+  evaluate_total d q votes n dorder fuel = BP_ok res rho gamma ->
+  exists pseats dseats, ha_marginal d (party_totals votes) n = Some pseats /\
+    ha_marginal d (district_totals votes) n = Some dseats /\
+    cert_ok d (districts votes) (parties votes) votes dseats pseats res (scale_k k rho) gamma = true /\
+    biprop_spec d (districts votes) (parties votes) votes dseats pseats res.
+Proof.
+  intros d q k votes n dorder fuel res rho gamma Hq0 Hq1 Hk Hd Hwf Hv Hs Hn Hdo H.
+  destruct (evaluate_total_partial d q k Hq0 Hq1 Hk Hd votes Hwf Hv Hs n Hn dorder Hdo fuel res rho gamma H) as (pseats & dseats & Hp & Hds & Hc).
+  exists pseats, dseats. split; [exact Hp|]. split; [exact Hds|]. split; [exact Hc|]. exact (proj2 (C07_cert_sound _ _ _ _ _ _ _ _ _ Hc)).
+Qed.
+
+(* 6. the two configurations the evaluator supports *)
+Theorem C07_d_hondt_partial_correct : forall votes n dorder fuel res rho gamma,
+  wf_votes votes -> (forall i j, 0 <= mget votes i j) -> (exists i j, 0 < mget votes i j) -> 0 <= n ->
+  incl (districts votes) dorder ->
+  evaluate_total d_hondt 0 votes n dorder fuel = BP_ok res rho gamma ->
+  exists pseats dseats, ha_marginal d_hondt (party_totals votes) n = Some pseats /\
+    ha_marginal d_hondt (district_totals votes) n = Some dseats /\
+    cert_ok d_hondt (districts votes) (parties votes) votes dseats pseats res (scale_k 1 rho) gamma = true /\
+    biprop_spec d_hondt (districts votes) (parties votes) votes dseats pseats res.
+Proof.
+  intros votes n dorder fuel res rho gamma. apply (C07_evaluate_total_partial_correct d_hondt 0 1);
+    [apply Qle_refl|reflexivity|reflexivity|exact d_hondt_signposts].
+Qed.
+Theorem C07_sainte_lague_partial_correct : forall votes n dorder fuel res rho gamma,
+  wf_votes votes -> (forall i j, 0 <= mget votes i j) -> (exists i j, 0 < mget votes i j) -> 0 <= n ->
+  incl (districts votes) dorder ->
+  evaluate_total sainte_lague (1 # 2) votes n dorder fuel = BP_ok res rho gamma ->
+  exists pseats dseats, ha_marginal sainte_lague (party_totals votes) n = Some pseats /\
+    ha_marginal sainte_lague (district_totals votes) n = Some dseats /\
+    cert_ok sainte_lague (districts votes) (parties votes) votes dseats pseats res (scale_k 2 rho) gamma = true /\
+    biprop_spec sainte_lague (districts votes) (parties votes) votes dseats pseats res.
+Proof.
+  intros votes n dorder fuel res rho gamma. apply (C07_evaluate_total_partial_correct sainte_lague (1 # 2) 2);
+    [discriminate|reflexivity|reflexivity|exact sainte_lague_signposts].
+Qed.
+
+(* 7. a progress measure (NOT a termination proof): the flaw count - the sum over the districts of |seats held - seats due| -
+      drops by exactly 2 with every seat transfer, which leaves the multipliers alone; a multiplier update leaves the seat
+      matrix, hence the flaw count, alone.  At most flaw/2 transfers can happen; the number of consecutive multiplier
+      updates is not bounded here (Pukelsheim's argument: every update labels one more row or column) *)
+Theorem C07_transfer_progress : forall q votes pseats tgt dorder s s', (q < 1)%Q -> wf_votes votes -> NoDup dorder ->
+  BInv q votes pseats s -> bstep q votes tgt dorder s = Next s' ->
+  (flaw tgt dorder (b_res s') = flaw tgt dorder (b_res s) - 2 /\ b_rho s' = b_rho s /\ b_gamma s' = b_gamma s) \/
+  b_res s' = b_res s.
+Proof. intros q votes pseats tgt dorder s s' Hq1 Hwf Hdo. exact (bstep_progress q Hq1 votes Hwf pseats tgt dorder Hdo s s'). Qed.
+Definition C07_termination_full_statement : Prop := forall d q k votes n tgt dorder,
+  (0 <= q)%Q -> (q < 1)%Q -> (0 < k)%Q -> (forall z, d z == k * (inject_Z z + 1 - q))%Q ->
+  wf_votes votes -> (forall i j, 0 <= mget votes i j) -> NoDup dorder ->
+  exists fuel, evaluate_core d q votes tgt dorder n fuel <> BP_out_of_fuel.
+
+(* 8. what the wire unit 105 runs (one pass that returns the trace and the outcome) IS the model of the theorems above *)
+Theorem C07_unit_runs_the_model : forall d q votes tgt dorder n fuel,
+  snd (run_core d q votes tgt dorder n fuel) = evaluate_core d q votes tgt dorder n fuel /\
+  snd (run_total d q votes n dorder fuel) = evaluate_total d q votes n dorder fuel /\
+  fst (run_core d q votes tgt dorder n fuel) =
+    match binit d q votes n with inr s => btrace q votes tgt dorder fuel s | inl _ => [] end.
+Proof.
+  intros d q votes tgt dorder n fuel. destruct (run_core_spec d q votes tgt dorder n fuel) as [H1 H2].
+  split; [exact H1|]. split; [apply run_total_spec|exact H2].
+Qed.
+
+(* the hypothesis "some vote is positive" cannot be dropped: on a matrix without a single vote the faithful model (like
+   the implementation: known finding C07-all-zero) returns a matrix with a seat in a cell without votes *)
+Definition zero_votes : mat := [(1%positive, [(1%positive, 0)]); (2%positive, [(1%positive, 0)])].
+Theorem C07_all_zero_refuted : exists votes tgt res rho gamma,
+  evaluate_core d_hondt 0 votes tgt [1%positive; 2%positive] 1 5 = BP_ok res rho gamma /\
+  wf_votes votes /\ (forall i j, mget votes i j = 0) /\
+  entries_ok votes res = false.
+Proof.
+  exists zero_votes, [(1%positive, 1)]. eexists. eexists. eexists.
+  split; [vm_compute; reflexivity|]. split; [|split].
+  - split; [repeat constructor; simpl; intuition discriminate|].
+    intros row [<-|[<-|[]]]; simpl; repeat constructor; simpl; tauto.
+  - intros i j. unfold mget, dget_or.
+    destruct (dget zero_votes i) as [r|] eqn:E; [|reflexivity].
+    destruct (dget r j) as [z|] eqn:E2; [|reflexivity]. apply dget_In in E. apply dget_In in E2.
+    destruct E as [E|[E|[]]]; injection E as <- <-; destruct E2 as [E2|[]]; injection E2 as <- <-; reflexivity.
+  - vm_compute. reflexivity.
+Qed.
+
 (* ---- non-vacuity ---- *)
 Definition ex_votes : mat := [(1%positive, [(1%positive, 10); (2%positive, 20)]); (2%positive, [(1%positive, 30); (2%positive, 5)])].
 Definition ex_res : mat := [(1%positive, [(1%positive, 1); (2%positive, 2)]); (2%positive, [(1%positive, 2)])].
@@ -171,6 +311,31 @@ Example C07_example_infeasible :
     (fun i => 1) (fun j => 1) = FeasCut [2%positive; 1%positive].
 Proof. vm_compute. reflexivity. Qed.
 
+(* the hypotheses of the partial-correctness theorems hold for the example matrix, and the whole-loop model returns on it
+   after one seat transfer (D'Hondt, 5 seats) *)
+Example C07_example_hypotheses :
+  wf_votes ex_votes /\ (forall i j, 0 <= mget ex_votes i j) /\ (exists i j, 0 < mget ex_votes i j) /\
+  incl (districts ex_votes) [1%positive; 2%positive].
+Proof.
+  split; [|split; [|split]].
+  - split; [repeat constructor; simpl; intuition discriminate|].
+    intros row [<-|[<-|[]]]; simpl; repeat constructor; simpl; intuition discriminate.
+  - intros i j. unfold mget, dget_or.
+    destruct (dget ex_votes i) as [r|] eqn:E; [|lia].
+    destruct (dget r j) as [z|] eqn:E2; [|lia]. apply dget_In in E. apply dget_In in E2.
+    destruct E as [E|[E|[]]]; injection E as <- <-; (destruct E2 as [E2|[E2|[]]]; injection E2 as <- <-; lia).
+  - exists 1%positive, 1%positive. vm_compute. reflexivity.
+  - intros x H. exact H.
+Qed.
+Example C07_example_whole_loop :
+  evaluate_total d_hondt 0 ex_votes 5 [1%positive; 2%positive] 10
+  = BP_ok [(1%positive, [(2%positive, 2)]); (2%positive, [(1%positive, 3)])]
+          [(1%positive, 1); (2%positive, 1)]%Q [(1%positive, 1 # 10); (2%positive, 1 # 8)]%Q /\
+  length (btrace 0 ex_votes [(2%positive, 3); (1%positive, 2)] [1%positive; 2%positive] 10
+            (mk_bstate [(1%positive, [(1%positive, 1); (2%positive, 2)]); (2%positive, [(1%positive, 2)])]
+                       [(1%positive, 1); (2%positive, 1)]%Q [(1%positive, 1 # 10); (2%positive, 1 # 8)]%Q)) = 2%nat.
+Proof. vm_compute. split; reflexivity. Qed.
+
 Print Assumptions C07_cert_sound.
 Print Assumptions C07_cert_complete.
 Print Assumptions C07_cert_complete_ex.
@@ -188,3 +353,13 @@ Print Assumptions C07_row_divisor_apportionment.
 Print Assumptions C07_row_is_highest_averages.
 Print Assumptions C07_index_covers_support.
 Print Assumptions C07_no_seat_outside.
+Print Assumptions C07_step_keeps_invariant.
+Print Assumptions C07_loop_partial_correct.
+Print Assumptions C07_initial_state_invariant.
+Print Assumptions C07_evaluate_partial_correct.
+Print Assumptions C07_evaluate_total_partial_correct.
+Print Assumptions C07_d_hondt_partial_correct.
+Print Assumptions C07_sainte_lague_partial_correct.
+Print Assumptions C07_all_zero_refuted.
+Print Assumptions C07_transfer_progress.
+Print Assumptions C07_unit_runs_the_model.
